@@ -140,5 +140,30 @@ theorem output_only_grows (prog : List Stmt) (g : GcMode) (f k : Nat) (cur : Lis
   · intro s' hx; rw [hx] at h; exact h
   · intro e hx; rw [hx] at h; exact h
 
+
+/-- **a print statement as a whole**: `দেখাও e;` evaluates `e` (which may print through the functions it calls), then appends
+    exactly the rendering of the value and a newline (nothing for `_দেখাও`), changes nothing else, and continues with the next
+    statement -/
+theorem print_statement_whole (prog : List Stmt) (f : Nat) (e : Expr) (m : Meta) (rest cur' : List Stmt) (s s' : St)
+    (h : exec prog (f+1) (.print e m :: rest) s = .ok (cur', s')) :
+    cur' = rest ∧ ∃ v s1 t, eval prog f (.print e m :: rest) e s = .ok (v, s1) ∧ render s1.heap f v = some t ∧
+      OnlyAppends s1 s' (t ++ ['\n']) := by
+  simp only [exec] at h
+  obtain ⟨⟨v, s1⟩, h1, h2⟩ := Res.bind_eq_ok h
+  obtain ⟨s2, h3, h4⟩ := Res.bind_eq_ok h2
+  simp at h4; obtain ⟨rfl, rfl⟩ := h4
+  obtain ⟨t, ht, ha⟩ := print_statement _ f true v s1 s2 h3
+  exact ⟨rfl, v, s1, t, h1, ht, by simpa using ha⟩
+
+theorem printNoEOL_statement_whole (prog : List Stmt) (f : Nat) (e : Expr) (m : Meta) (rest cur' : List Stmt) (s s' : St)
+    (h : exec prog (f+1) (.printNoEOL e m :: rest) s = .ok (cur', s')) :
+    cur' = rest ∧ ∃ v s1 t, eval prog f (.printNoEOL e m :: rest) e s = .ok (v, s1) ∧ render s1.heap f v = some t ∧
+      OnlyAppends s1 s' t := by
+  simp only [exec] at h
+  obtain ⟨⟨v, s1⟩, h1, h2⟩ := Res.bind_eq_ok h
+  obtain ⟨s2, h3, h4⟩ := Res.bind_eq_ok h2
+  simp at h4; obtain ⟨rfl, rfl⟩ := h4
+  obtain ⟨t, ht, ha⟩ := print_statement _ f false v s1 s2 h3
+  exact ⟨rfl, v, s1, t, h1, ht, by simpa using ha⟩
 end C18
 end Pakhi
